@@ -497,12 +497,24 @@ where
 
         let mut lookup_table = Vec::with_capacity(1 << PRECISION);
         let mut cdf = Vec::with_capacity(symbol_table.size_hint().0 + 1);
+        // `symbol_table` may come from a user-provided implementation of the (safe) trait
+        // `IterableEntropyModel`, so we can't trust it for memory safety: `quantile_function`
+        // relies on `lookup_table` having exactly `1 << PRECISION` entries.
         for (symbol, left_sided_cumulative, probability) in symbol_table {
             let index = cdf.len().as_();
-            debug_assert_eq!(left_sided_cumulative, lookup_table.len().as_());
+            let probability: usize = probability.get().into();
+            assert!(
+                left_sided_cumulative.into() == lookup_table.len()
+                    && probability <= (1usize << PRECISION) - lookup_table.len(),
+                "Invalid symbol table: intervals must be consecutive and fit into `1 << PRECISION`."
+            );
             cdf.push((lookup_table.len().as_(), symbol));
-            lookup_table.resize(lookup_table.len() + probability.get().into(), index);
+            lookup_table.resize(lookup_table.len() + probability, index);
         }
+        assert!(
+            lookup_table.len() == 1usize << PRECISION,
+            "Invalid symbol table: probabilities must add up to `1 << PRECISION`."
+        );
         let last_symbol = cdf.last().expect("cdf is not empty").1.clone();
         cdf.push((wrapping_pow2(PRECISION), last_symbol));
 
